@@ -483,4 +483,4 @@ def _relabel(state):
     return out
 
 
-TASK.edges = {"relabel": {"apply": _relabel, "funcs": [f.name for f in L_FUNCS], "keys": None, "cfgs": [{}]}}
+TASK.edges = {"relabel": {"apply": _relabel, "funcs": [f.name for f in L_FUNCS], "keys": None, "cfgs": "all"}}
